@@ -381,3 +381,24 @@ CHECKS["C36"] = dict(
     outside=["rewrite_as_exp/sin/cos, expand_as_exp, trig_to_sqrt (need complex exponential identities that the uninterpreted-function oracle cannot decide)", "as_real_imag of functions"],
     assumptions=["oracle D2 (vlib/veval.h) and a pairwise complex evaluator in the harness"],
 )
+
+CHECKS["C35"] = dict(
+    src="C35.cpp", level="model_checking",
+    entries=[
+        dict(name="harness_c35_pow", quick={}, thorough={}),
+        dict(name="harness_c35_functions", quick={}, thorough={}),
+    ],
+    anchors=["SymEngine::RefineVisitor::bvisit(SymEngine::Pow", "SymEngine::refine", "SymEngine::simplify"],
+    bounds="refine((x**k)**n) for k, n from a table of 10 rationals under {x real, x positive, x negative}: magnitude exponent and principal-branch phase (exact rational arithmetic modulo 2) of input and output for x > 0 and x < 0; refine and simplify of abs, sign, max, min, conjugate shapes under sign assumptions compared over all real x, y satisfying them",
+    outside=["log and floor/ceiling rules", "complex symbols", "csc(x)**-1 style simplifications"],
+    assumptions=["oracle D3 (phase arithmetic in the harness) and D2 (vlib/veval.h)"],
+)
+
+CHECKS["C34"] = dict(
+    src="C34.cpp", level="model_checking",
+    entries=[dict(name="harness_c34", quick={}, thorough={})],
+    anchors=["SymEngine::is_zero", "SymEngine::is_positive", "SymEngine::is_negative", "SymEngine::is_nonnegative", "SymEngine::is_integer", "SymEngine::is_real", "SymEngine::Assumptions"],
+    bounds="12 expression shapes over x, y (sums, products, squares, cubes, abs, affine forms with a constant -2..2) under every combination of {real, integer} x {no sign information, > 0, < 0, >= 0, <= 0, != 0} per symbol; every definite answer of is_zero, is_nonzero, is_positive, is_negative, is_nonnegative, is_nonpositive, is_real, is_integer is checked against the value at ALL real (or integer) x, y satisfying the assumptions",
+    outside=["is_rational/is_irrational/is_algebraic/is_transcendental/is_finite/is_even/is_odd/is_polynomial", "rational-valued symbols", "transcendental functions"],
+    assumptions=["oracle D2/D4 (vlib/veval.h) over the reals and integers"],
+)
